@@ -11,6 +11,7 @@ import (
 
 // parserAnchors: role-derived anchors of package parser shared by the parser rule sets.
 type parserAnchors struct {
+	ctx          *Ctx
 	cur, peek    *types.Var // Parser.CurrentToken / Parser.PeekToken (exported API)
 	errorsFld    *types.Var // the []ParserError field
 	nextTok      *ssa.Function
@@ -28,7 +29,7 @@ type parserAnchors struct {
 
 func (c *Ctx) parserAnchors() *parserAnchors {
 	c.buildSSA()
-	a := &parserAnchors{errRecorders: map[*ssa.Function]bool{}, flow: map[string][]string{}}
+	a := &parserAnchors{ctx: c, errRecorders: map[*ssa.Function]bool{}, flow: map[string][]string{}}
 	a.cur = c.fieldByName("parser", "Parser", "CurrentToken")
 	a.peek = c.fieldByName("parser", "Parser", "PeekToken")
 	a.errorsFld = c.fieldByType("parser", "Parser", func(t types.Type) bool {
@@ -449,7 +450,11 @@ func (a *parserAnchors) purePredicate(f *ssa.Function) bool {
 	pure := true
 	allInstrs(f, func(_ *ssa.BasicBlock, _ int, in ssa.Instruction) {
 		switch x := in.(type) {
-		case *ssa.Store, *ssa.MapUpdate, *ssa.Send, *ssa.Go, *ssa.Defer, *ssa.Panic:
+		case *ssa.Store:
+			if !storesIntoOwnLocal(x) {
+				pure = false
+			}
+		case *ssa.MapUpdate, *ssa.Send, *ssa.Go, *ssa.Defer, *ssa.Panic:
 			pure = false
 		case *ssa.Call:
 			cal := x.Call.StaticCallee()
@@ -467,6 +472,13 @@ func (a *parserAnchors) purePredicate(f *ssa.Function) bool {
 	return pure
 }
 
+// storesIntoOwnLocal: the store fills a local variable that does not escape (the copy of a table row a range loop
+// makes); nothing outside the function can observe it.
+func storesIntoOwnLocal(st *ssa.Store) bool {
+	al, ok := st.Addr.(*ssa.Alloc)
+	return ok && !al.Heap
+}
+
 // pureReader: a function of the package without stores and without calls other than to pure functions (level readers).
 func (a *parserAnchors) pureReader(f *ssa.Function) bool {
 	return a.pureReaderDepth(f, 0)
@@ -479,7 +491,11 @@ func (a *parserAnchors) pureReaderDepth(f *ssa.Function, depth int) bool {
 	ok := true
 	allInstrs(f, func(_ *ssa.BasicBlock, _ int, in ssa.Instruction) {
 		switch x := in.(type) {
-		case *ssa.Store, *ssa.MapUpdate, *ssa.Send, *ssa.Go, *ssa.Defer, *ssa.Panic:
+		case *ssa.Store:
+			if !storesIntoOwnLocal(x) {
+				ok = false
+			}
+		case *ssa.MapUpdate, *ssa.Send, *ssa.Go, *ssa.Defer, *ssa.Panic:
 			ok = false
 		case *ssa.Call:
 			if _, isB := x.Call.Value.(*ssa.Builtin); isB {
@@ -542,7 +558,16 @@ func (a *parserAnchors) expandCond(cond ssa.Value, want bool, from *ssa.BasicBlo
 		return [][]pathFact{all}
 	}
 	if !a.purePredicate(cal) {
+		if a.ctx != nil {
+			return a.foldPredicate(a.ctx, call, want, from)
+		}
 		return nil
+	}
+	// a predicate with a loop (a walk over a table) is folded per state: its paths say nothing the rules can use
+	if a.ctx != nil && loopHeader(cal) != nil {
+		if alts := a.foldPredicate(a.ctx, call, want, from); alts != nil {
+			return alts
+		}
 	}
 	var alts [][]pathFact
 	understood := true
@@ -581,6 +606,9 @@ func (a *parserAnchors) expandCond(cond ssa.Value, want bool, from *ssa.BasicBlo
 		alts = append(alts, append(append([]pathFact(nil), facts...), pathFact{at, last}))
 	})
 	if !complete || !understood {
+		if a.ctx != nil {
+			return a.foldPredicate(a.ctx, call, want, from)
+		}
 		return nil
 	}
 	if alts == nil {
